@@ -163,12 +163,30 @@ class Comparison:
 
     # ---- outcome sets
 
+    @staticmethod
+    def _atoms(pc):
+        """{atom id: polarity} of the literal conjuncts of a path condition (syntactic)."""
+        out = {}
+        for c in pc:
+            pol = True
+            while z3.is_not(c):
+                c, pol = c.arg(0), not pol
+            out[c.get_id()] = pol if out.get(c.get_id(), pol) == pol else None
+        return out
+
     def outcomes(self, label, outs_a, outs_b, pcs=()):
         pcs = list(pcs)
+        atoms_b = [self._atoms(b["pc"] if isinstance(b, dict) else b.pc) for b in outs_b]
         for i, a in enumerate(outs_a):
+            at_a = self._atoms(a["pc"] if isinstance(a, dict) else a.pc)
             for j, b in enumerate(outs_b):
                 apc = a["pc"] if isinstance(a, dict) else a.pc
                 bpc = b["pc"] if isinstance(b, dict) else b.pc
+                # two paths that took opposite sides of the same (syntactically identical) branch
+                # condition cannot be joined: no solver call needed
+                at_b = atoms_b[j]
+                if any(k in at_b and at_b[k] is not None and v is not None and at_b[k] != v for k, v in at_a.items()):
+                    continue
                 joint = pcs + list(apc) + list(bpc)
                 if not self.feasible(joint):
                     continue
